@@ -260,7 +260,7 @@ class Setup:
 
 
 def family_setup(ctx, props, family="obj", n_random=6, tl2_random=False, corpus=None, extra_specs=(),
-                 which=("tl2gen",), need_verifdump=False, need_objdump=True):
+                 which=("tl2gen",), need_verifdump=False, need_objdump=True, objx_random=None):
     """T-const, theorems, reference model, tools, schema units (corpus + random)."""
     import randschema
     st = Setup()
@@ -281,6 +281,8 @@ def family_setup(ctx, props, family="obj", n_random=6, tl2_random=False, corpus=
     if not st.berr:
         specs = list(corpus if corpus is not None else repo_corpus(ctx.quick()))
         specs += list(extra_specs)
+        if objx_random is not None:
+            specs += objx_specs(ctx, objx_random)
         if n_random:
             specs += randschema.make_specs(ctx, n_random, tl2=tl2_random)
         st.units = prepare_units(ctx, specs, st.bins, st.objdump, need_verifdump=need_verifdump)
@@ -369,3 +371,242 @@ def run_otf(binary, scratch, load_line, lines, timeout=900, watchdog_ms=4000, ma
         if restarts > max_restarts:
             results += ["crash too-many-restarts"] * (len(lines) - len(results))
     return results, first
+
+
+# --------------------------------------------------------------------------- extra fixed + random schemas of the Obj family
+OBJX_HEADER = """
+int#a8509bda ? = Int;
+long#22076cba ? = Long;
+float#824dab22 ? = Float;
+double#2210c154 ? = Double;
+string#b5286e24 ? = String;
+boolFalse#bc799737 = Bool;
+boolTrue#997275b5 = Bool;
+true = True;
+resultFalse#27930a7b {t:Type} = Maybe t;
+resultTrue#3f9c8ef8 {t:Type} t = Maybe t;
+vector#1cb5c415 {t:Type} # [t] = Vector t;
+tuple#9770768a {t:Type} {n:#} [t] = Tuple t n;
+dictionaryField {t:Type} key:string value:t = DictionaryField t;
+dictionary#1f4c618f {t:Type} %(Vector %(DictionaryField t)) = Dictionary t;
+"""
+
+# wide structs (TL2 presence blocks of 8 fields: C09), sizes reaching tuples through nat parameters (C18),
+# functions whose result is a tuple whose ELEMENT type depends on another request field, in permuted order (C07)
+OBJX_SCHEMA = OBJX_HEADER + """
+objx.wide9 a:int b:int c:int d:int e:int f:int g:int h:int i:string j:(vector int) = objx.Wide9;
+objx.wide16 f0:int f1:string f2:long f3:Bool f4:(vector int) f5:int f6:double f7:string f8:int f9:(vector string)
+    f10:Bool f11:long f12:int f13:string f14:int f15:(Maybe int) f16:string = objx.Wide16;
+objx.wide20 f0:int f1:int f2:string f3:int f4:long f5:int f6:string f7:(vector int) f8:int f9:int f10:string f11:int
+    f12:int f13:int f14:(Maybe string) f15:int f16:long f17:objx.wide9 f18:string f19:int = objx.Wide20;
+objx.wideMask m:# f1:int f2:m.0?int f3:string f4:m.1?string f5:int f6:int f7:m.2?int f8:int f9:m.3?(vector int) f10:string f11:m.4?int = objx.WideMask;
+objx.wideBox w:objx.wide9 v:(vector objx.wide9) u:(Maybe objx.wide16) = objx.WideBox;
+
+objx.item {m:#} id:int name:m.0?string tags:m.1?(vector int) = objx.Item m;
+objx.block {n:#} id:int items:n*[int] = objx.Block n;
+objx.page {n:#} fields_mask:# title:string tags:fields_mask.0?(tuple string n) body:(objx.block n) = objx.Page n;
+objx.doc n:# body:(objx.block n) = objx.Doc;
+objx.book n:# page:(objx.page n) = objx.Book;
+objx.grid rows:# cols:# cells:(tuple (tuple int cols) rows) = objx.Grid;
+
+---functions---
+@read objx.getTuple n:# = Tuple int n;
+@read objx.getItems fields_mask:# = Vector (objx.Item fields_mask);
+@read objx.getMatrix rows:# cols:# = Tuple (Tuple int cols) rows;
+@read objx.getMatrixT cols:# rows:# = Tuple (Tuple int cols) rows;
+@read objx.getItemTuple count:# fields_mask:# = Tuple (objx.Item fields_mask) count;
+@read objx.getItemTupleT fields_mask:# x:int count:# = Tuple (objx.Item fields_mask) count;
+@read objx.getCube a:# b:# c:# = Tuple (Tuple (Tuple int b) c) a;
+@read objx.getPages x:int n:# m:# = Tuple (objx.Page n) m;
+@read objx.getBlocks n:# m:# = Vector (Tuple (objx.Block m) n);
+@read objx.getMaybeRow n:# m:# = Maybe (Tuple (Tuple string m) n);
+"""
+
+
+def objx_random_schema(rng, ns="ox"):
+    """random supplement: wide structs (8..20 plain fields) and functions with nested, permuted nat arguments"""
+    simple = ["int", "long", "string", "double", "Bool", "(vector int)", "(vector string)", "(Maybe int)", "(Maybe string)"]
+    lines = [f"{ns}.item {{m:#}} id:int name:m.0?string tags:m.1?(vector int) = {ns}.Item m;",
+             f"{ns}.block {{n:#}} id:int items:n*[int] = {ns}.Block n;"]
+    wides = []
+    for i in range(rng.randrange(2, 5)):
+        nf = rng.randrange(8, 21)
+        fs = []
+        for j in range(nf):
+            t = rng.choice(simple)
+            if wides and rng.random() < 0.12:
+                t = f"{ns}.w{rng.choice(wides)}"
+            fs.append(f"f{j}:{t}")
+        lines.append(f"{ns}.w{i} " + " ".join(fs) + f" = {ns}.W{i};")
+        wides.append(i)
+    lines.append("---functions---")
+    for i in range(rng.randrange(3, 7)):
+        k = rng.randrange(2, 4)
+        names = [f"a{j}" for j in range(k)]
+        order = names[:]
+        rng.shuffle(order)
+        fields = []
+        for n in names:
+            if rng.random() < 0.3:
+                fields.append(f"x{len(fields)}:int")
+            fields.append(f"{n}:#")
+        inner = rng.choice(["int", "string", f"({ns}.Item {order[-1]})", f"({ns}.Block {order[-1]})"])
+        use = order[:-1] if inner.startswith("(") else order
+        t = inner
+        for n in use:
+            t = f"(Tuple {t} {n})"
+        wrap = rng.choice(["", "", "Vector ", "Maybe "])
+        res = t[1:-1] if not wrap and t.startswith("(") else (wrap + t)
+        lines.append(f"@read {ns}.fn{i} " + " ".join(fields) + f" = {res};")
+    return OBJX_HEADER + "\n".join(lines) + "\n"
+
+
+def objx_specs(ctx, n_random=2):
+    """unit specs (name, files, options, whitelist, san) of the extra schemas"""
+    d = Path(ctx.scratch) / "objx"
+    d.mkdir(exist_ok=True)
+    (d / "objx.tl").write_text(OBJX_SCHEMA)
+    specs = [("objx", [d / "objx.tl"], ["--tl2WhiteList=*"], "*", True)]
+    for i in range(n_random):
+        p = d / f"objr{i}.tl"
+        p.write_text(objx_random_schema(ctx.rng))
+        specs.append((f"objr{i}", [p], ["--tl2WhiteList=*"], "*", True))
+    return specs
+
+
+def default_value(ins, tid, ps=(), depth=0):
+    """the wire value of a freshly created object (all defaults) or None where it depends on more than we track"""
+    if depth > 8:
+        return None
+    x = ins[tid]
+    k = x["kind"]
+    if k == "prim":
+        p = PRIM_MAP.get(x["name"], "notl1")
+        if p in ("nat", "int", "float", "long", "double"):
+            return ("n", 0)
+        if p == "string":
+            return ("s", b"")
+        if p == "bool":
+            return ("b", False)
+        return None
+    if k == "struct":
+        fs = []
+        for f in x["fields"]:
+            m = f.get("mask")
+            if m is not None:
+                if m["kind"] == "field":
+                    fs.append(None)      # local masks are 0 in a default object
+                    continue
+                mv = m["value"] if m["kind"] == "num" else (ps[m["value"]] if m["value"] < len(ps) else 0)
+                if not (mv >> f["bit"]) & 1:
+                    fs.append(None)
+                    continue
+            args = []
+            for a in f.get("natArgs") or []:
+                args.append(a["value"] if a["kind"] == "num" else (0 if a["kind"] == "field" else (ps[a["value"]] if a["value"] < len(ps) else 0)))
+            v = default_value(ins, f["type"], args, depth + 1)
+            if v is None:
+                return None
+            fs.append(v)
+        return ("S", fs)
+    if k == "union":
+        v0 = ins[x["variants"][0]]
+        d = default_value(ins, v0["id"], ps, depth + 1)
+        return None if d is None else ("U", 0, d[1])
+    if k == "dict":
+        return ("A", [])
+    if k == "array":
+        if not x.get("isTuple"):
+            return ("A", [])
+        n = (ps[0] if ps else 0) if x.get("dynamicSize") else x.get("count", 0)
+        if n > 64:
+            return None
+        ef = x["elem"]
+        eargs = [a["value"] if a["kind"] == "num" else (ps[a["value"]] if a["kind"] == "param" and a["value"] < len(ps) else 0) for a in ef.get("natArgs") or []]
+        e = default_value(ins, ef["type"], eargs, depth + 1)
+        return None if e is None else ("A", [e] * n)
+    return None
+
+
+# --------------------------------------------------------------------------- TL2-origin schemas (.tl2) for C12
+OBJX_TL2 = """
+// presence blocks of 8 fields; omitted (retired) fields `_name:T` / `_:T` at block boundaries and elsewhere
+o2.plain = a:uint32 b:uint32 c:uint32 d:uint32 e:uint32 f:uint32 g:uint32 x:uint32 h:uint32 i:string;
+o2.omitMid = a:uint32 b:uint32 c:uint32 _old:uint32 d:uint32 e:uint32 f:uint32 g:uint32 h:uint32 i:string;
+o2.omitEdge = a:uint32 b:uint32 c:uint32 d:uint32 e:uint32 f:uint32 g:uint32 _old:uint32 h:uint32 i:string;
+o2.omitEdge2 = a:uint32 b:string c:int64 d:bool e:uint32 f:uint32 g:uint32 _:uint32 h:uint32 i:string j:uint32 k:uint32 l:uint32 m:uint32 n:uint32 _old2:string o:int32 p:string;
+o2.omitFirst = _z:uint32 a:uint32 b:string;
+o2.omitLast = a:uint32 b:string c:uint32 d:uint32 e:uint32 f:uint32 g:uint32 _gone:string;
+o2.opt = a?:uint32 b?:string c:uint32 d?:[]int32 e?:o2.omitMid f:bool g?:bool h?:int64 i?:string j:uint32;
+o2.point = x:int32 y:int32;
+o2.shape = | Empty | Dot o2.point | Line a:o2.point b:o2.point | Poly pts:[]o2.point _w:uint32 name:string;
+o2.color = | Red | Green | Blue;
+o2.ids <=> []int64;
+o2.box<t:Type> = v:t n:uint32 w?:t;
+o2.all = p:o2.plain m:o2.omitMid e:o2.omitEdge s:o2.shape c:o2.color ids:o2.ids ss:[]o2.shape arr:[3]o2.point
+         m1:[string]uint32 b1:o2.box<o2.omitEdge2> b2:o2.box<string> o:o2.opt t:bit u:[]bool bb:byte;
+"""
+
+
+def tl2_random_schema(rng, ns="t2"):
+    """small random .tl2 schema: structs with 1..20 fields, optional `?` fields, omitted `_x:T` fields at every index
+    (7 and 15 favoured), unions, enums, arrays, maps, aliases, one generic"""
+    prims = ["uint32", "int32", "int64", "string", "bool", "byte", "float64"]
+    decls = []      # names usable as field types
+    lines = [f"{ns}.pt = x:int32 y:int32;", f"{ns}.gen<t:Type> = v:t w?:t k:uint32;"]
+    decls.append(f"{ns}.pt")
+
+    def ftype():
+        r = rng.random()
+        base = rng.choice(prims) if r < 0.6 or not decls else rng.choice(decls)
+        r2 = rng.random()
+        if r2 < 0.15:
+            return "[]" + base
+        if r2 < 0.22:
+            return f"[{rng.randrange(0, 5)}]" + base
+        if r2 < 0.27:
+            return f"[string]{base}"
+        if r2 < 0.32:
+            return f"{ns}.gen<{base}>"
+        return base
+
+    def fields(nf, prefix="f"):
+        fs = []
+        for j in range(nf):
+            om = rng.random() < (0.5 if j in (7, 15) else 0.08)
+            if om:
+                fs.append((f"_o{j}" if rng.random() < 0.7 else "_") + ":" + rng.choice(prims))
+            else:
+                fs.append(f"{prefix}{j}" + ("?" if rng.random() < 0.25 else "") + ":" + ftype())
+        return " ".join(fs)
+
+    for i in range(rng.randrange(4, 9)):
+        k = rng.random()
+        name = f"{ns}.s{i}"
+        if k < 0.6:
+            lines.append(f"{name} = {fields(rng.choice([1, 2, 5, 8, 9, 10, 16, 17, 20, rng.randrange(1, 21)]))};")
+        elif k < 0.8:
+            vs = []
+            for v in range(rng.randrange(2, 5)):
+                body = rng.choice(["", " " + rng.choice(prims), " " + fields(rng.randrange(1, 10), prefix=f"v{v}f")])
+                vs.append(f"| C{i}x{v}{body}")
+            lines.append(f"{name} = " + " ".join(vs) + ";")
+        elif k < 0.9:
+            lines.append(f"{name} = " + " ".join(f"| E{i}x{v}" for v in range(rng.randrange(2, 5))) + ";")
+        else:
+            lines.append(f"{name} <=> {ftype()};")
+        decls.append(name)
+    return "\n".join(lines) + "\n"
+
+
+def tl2_specs(ctx, n_random=2):
+    d = Path(ctx.scratch) / "objx2"
+    d.mkdir(exist_ok=True)
+    (d / "objx.tl2").write_text(OBJX_TL2)
+    specs = [("cases_tl2", [REPO / "internal/tlcodegen/test/tls/cases.tl2"], ["--tl2WhiteList=*"], "*", True),
+             ("objx_tl2", [d / "objx.tl2"], ["--tl2WhiteList=*"], "*", True)]
+    for i in range(n_random):
+        p = d / f"r{i}.tl2"
+        p.write_text(tl2_random_schema(ctx.rng))
+        specs.append((f"rt2_{i}", [p], ["--tl2WhiteList=*"], "*", True))
+    return specs
